@@ -695,10 +695,24 @@ def rule_i(prog, rep):
                       witness={"inputs": "any cell with rows: the value is computed but reported missing (validity False), or a missing cell is reported valid"})
             g = flat_guards(v.guards)
             has_len = any(pol and c.op == "call" and tm.callee_name(c) == "builtins.len" for c, pol in g)
-            all_valid = any(pol and c.op == "call" and tm.callee_name(c) in ("numpy.all", ".all") and tm.contains(c, lambda x: x.op == "attr" and x.args[1] == "validity") for c, pol in g)
-            rep.check(has_len and (ign or all_valid), "R-C18-i", w, "min/max (%s): computed for a non-empty cell%s" % (label, "" if ign else " whose rows are all valid"), "",
-                      "guards are %s" % [tm.show(c)[:35] for c, p in g if tm.contains(c, lambda x: x.op == "attr" and x.args[1] in ("values", "validity"))][:3],
-                      witness={"inputs": "a cell with one missing row under propagation returns a number; an empty cell calls min() on nothing"})
+            def _is_all_valid(c):
+                return c.op == "call" and tm.callee_name(c) in ("numpy.all", ".all") and tm.contains(c, lambda x: x.op == "attr" and x.args[1] == "validity")
+            all_valid = any(pol and _is_all_valid(c) for c, pol in g)
+            # `validity is None or numpy.all(validity[...])`: the all-valid test with an escape for `no validity to test`
+            # (the local is None only on the ignoring path); accepted when every other operand is such an `is None` test
+            for c, pol in g:
+                if pol and c.op == "bool" and c.args[0] == "or" and any(_is_all_valid(a) for a in c.args[1:]) and \
+                        all(_is_all_valid(a) or (a.op == "cmp" and a.args[0] == "is" and tm.NONE in a.args[1:]) for a in c.args[1:]):
+                    all_valid = True
+            mentions_validity = any(tm.contains(c, lambda x: x.op == "attr" and x.args[1] == "validity") for c, pol in g)
+            cons_i = "min/max (%s): computed for a non-empty cell%s" % (label, "" if ign else " whose rows are all valid")
+            if has_len and (ign or all_valid):
+                rep.proved("R-C18-i", w, cons_i, "")
+            elif has_len and not ign and mentions_validity:
+                rep.undecided("R-C18-i", w, cons_i, "the store is guarded by a validity test in a form not read here: %s" % [tm.show(c)[:50] for c, p in g if tm.contains(c, lambda x: x.op == "attr" and x.args[1] == "validity")][:2])
+            else:
+                rep.violated("R-C18-i", w, cons_i, "guards are %s" % [tm.show(c)[:35] for c, p in g if tm.contains(c, lambda x: x.op == "attr" and x.args[1] in ("values", "validity"))][:3],
+                             witness={"inputs": "a cell with one missing row under propagation returns a number; an empty cell calls min() on nothing"})
             arg = v["value"].args[1][0] if v["value"].args[1] else None
             masked = arg is not None and tm.contains(arg, lambda x: x.op == "sub" and x.args[0] == T("attr", tm.param("self"), "values") and x.args[1] == T("attr", tm.param("self"), "validity"))
             rep.check(masked == ign, "R-C18-i", w, "min/max (%s): reduces %s" % (label, "the valid rows only" if ign else "all rows of the cell"), "", "the reduced rows are %s" % (arg is not None and tm.show(arg)[:50]),
